@@ -184,7 +184,9 @@ func (m *WireMonitor) clientFrame(wl *wireLink, e *TapEvent, f *tunnelpb.ClientT
 		if st.halfClosed > 0 {
 			m.v("C13", "request-data-after-half-close", "link %d stream %d: request message emitted after half-close", wl.link.ID, id)
 		}
-		if st.reqRemaining > 0 {
+		// (an application that goes on sending after a failed SendMsg - e.g. on an RPC its peer has
+		// already finished - legitimately starts a new message after an aborted one; not judged)
+		if st.reqRemaining > 0 && !m.w.sendFailedBefore(st.tag, "client", e.Seq) {
 			m.v("C13", "request-envelope-inside-message", "link %d stream %d: new request message frame while %d bytes of the previous message are outstanding", wl.link.ID, id, st.reqRemaining)
 		}
 		if int64(n) > int64(fr.RequestMessage.Size) {
@@ -300,7 +302,7 @@ func (m *WireMonitor) serverFrame(wl *wireLink, e *TapEvent, f *tunnelpb.ServerT
 		if handlerEnded {
 			m.v("C13", "frame-after-close", "link %d stream %d: response message emitted after the close frame of a stream its handler ended", wl.link.ID, id)
 		}
-		if st.respRemaining > 0 {
+		if st.respRemaining > 0 && !m.w.sendFailedBefore(st.tag, "handler", e.Seq) {
 			m.v("C13", "response-envelope-inside-message", "link %d stream %d: new response message frame while %d bytes of the previous message are outstanding", wl.link.ID, id, st.respRemaining)
 		}
 		if int64(n) > int64(fr.ResponseMessage.Size) {
@@ -345,6 +347,23 @@ func (m *WireMonitor) serverFrame(wl *wireLink, e *TapEvent, f *tunnelpb.ServerT
 	case nil:
 		m.v("C13", "empty-frame", "link %d stream %d: server emitted a frame with no content", wl.link.ID, id)
 	}
+}
+
+// sendFailedBefore reports whether a send of the tagged RPC on the given side
+// returned an error before sequence number seq.
+func (w *World) sendFailedBefore(tag, side string, seq int64) bool {
+	if tag == "" {
+		return false
+	}
+	l := w.Env.Log
+	l.mu.Lock()
+	defer l.mu.Unlock()
+	for _, r := range l.recs {
+		if r.RPC == tag && r.Side == side && (r.K == "send" || r.K == "invoke") && r.RetSeq != 0 && r.Err != "" && r.RetSeq < seq {
+			return true
+		}
+	}
+	return false
 }
 
 // handlerReturnedBefore reports whether the scripted handler of the tagged RPC
